@@ -35,6 +35,7 @@ type Controller struct {
 	Decisions []string
 	Misses    int
 	Hits      int
+	Missed    []string
 }
 
 func NewController(auto bool) *Controller {
@@ -119,7 +120,9 @@ func (c *Controller) snapshot() []*parked {
 	c.mu.Lock()
 	defer c.mu.Unlock()
 	ps := append([]*parked(nil), c.parked...)
-	sort.Slice(ps, func(i, j int) bool { return ps[i].key() < ps[j].key() || (ps[i].key() == ps[j].key() && ps[i].order < ps[j].order) })
+	sort.Slice(ps, func(i, j int) bool {
+		return ps[i].key() < ps[j].key() || (ps[i].key() == ps[j].key() && ps[i].order < ps[j].order)
+	})
 	return ps
 }
 
@@ -287,6 +290,118 @@ func (s *replaySched) Pick(step int, opts []string, internal []bool) int {
 		s.pos++
 	}
 	return s.fallback.Pick(step, opts, internal)
+}
+
+// guidedSched steers the run along a list of wanted decisions derived from a
+// TLC behaviour of the design model. A wanted decision that is not available
+// yet is waited for: decisions that do not occur in the rest of the list are
+// taken meanwhile (they belong to steps the design model does not
+// distinguish), then time is advanced; only when nothing helps is the wanted
+// decision skipped and counted as a miss. Decisions that occur later in the
+// list are held back - which is what keeps a goroutine parked between two of
+// its steps while other actors run past it.
+type guidedSched struct {
+	last   map[string]int
+	list   []string
+	pos    int
+	waited int
+	ctl    *Controller
+	rng    *rand.Rand
+}
+
+func (s *guidedSched) took(step int, key string, i int) int {
+	if s.last == nil {
+		s.last = map[string]int{}
+	}
+	a := actorOf(key)
+	s.last[a] = step
+	// a command goroutine and its operator lane are one actor for this purpose
+	if len(a) > 2 && a[:2] == "c:" {
+		s.last["lane0"] = step
+	}
+	return i
+}
+
+func (s *guidedSched) Pick(step int, opts []string, internal []bool) int {
+	for s.pos < len(s.list) {
+		want := s.list[s.pos]
+		for i, o := range opts {
+			if o == want {
+				s.pos++
+				s.waited = 0
+				s.ctl.Hits++
+				return s.took(step, o, i)
+			}
+		}
+		if want == "advance" { // time cannot advance now (urgent step pending): let the others run
+			s.pos++
+			continue
+		}
+		later := map[string]bool{}
+		for _, k := range s.list[s.pos:] {
+			later[k] = true
+		}
+		var free []int
+		for i, o := range opts {
+			if o != "advance" && !later[o] {
+				free = append(free, i)
+			}
+		}
+		if len(free) > 0 {
+			// prefer actors the design model does not know at all over un-modelled
+			// steps of actors it does know (those are more likely being held on purpose)
+			known := map[string]bool{}
+			for _, k := range s.list {
+				known[actorOf(k)] = true
+			}
+			// first: the actor that will produce the wanted decision
+			wa := actorOf(want)
+			for _, i := range free {
+				a := actorOf(opts[i])
+				if a == wa || (wa == "lane0" && len(a) > 2 && a[:2] == "c:") {
+					return s.took(step, opts[i], i)
+				}
+			}
+			for _, i := range free {
+				if !known[actorOf(opts[i])] {
+					return s.took(step, opts[i], i)
+				}
+			}
+			// all belong to known actors: continue the one that moved most recently (a step that is
+			// atomic in the design model is several yields in the code)
+			best, bestAt := free[0], -1
+			for _, i := range free {
+				if at, ok := s.last[actorOf(opts[i])]; ok && at > bestAt {
+					best, bestAt = i, at
+				}
+			}
+			return s.took(step, opts[best], best)
+		}
+		if s.waited < 80 {
+			for i, o := range opts {
+				if o == "advance" {
+					s.waited++
+					return i
+				}
+			}
+		}
+		s.ctl.Misses++
+		s.ctl.Missed = append(s.ctl.Missed, want)
+		s.pos++
+		s.waited = 0
+	}
+	// list exhausted: run everything to completion, internal steps first
+	for i := range opts {
+		if internal[i] {
+			return i
+		}
+	}
+	for i, o := range opts {
+		if o != "advance" {
+			return i
+		}
+	}
+	return len(opts) - 1
 }
 
 func fmtKey(point, actor string) string { return fmt.Sprintf("%s@%s", point, actor) }
